@@ -412,6 +412,13 @@ def check_real(shells, convs, with_eri, rng, viols, errs, tag):
     nf = sum(c.shape[0] for c in Cs)
     T = rng.normal(size=(max(1, nf + int(rng.integers(-2, 3))), nf))
 
+    # natural magnitude of momentum-type arrays (they vanish by symmetry for a single centre: pure rounding noise)
+    from gbasis.integrals.kinetic_energy import kinetic_energy_integral as _kin
+
+    _t = cm.call(_kin, cart)
+    gfl = float(np.sqrt(2 * np.abs(np.diag(_t)).max())) if isinstance(_t, np.ndarray) else 1.0
+    rfl = 1.0 + max(float(np.abs(np.array(s_["c"])).max()) for s_ in shells)
+
     def judge(out, want, what, qty):
         nonlocal n
         n += 1
@@ -422,7 +429,8 @@ def check_real(shells, convs, with_eri, rng, viols, errs, tag):
         if out.shape != want.shape:
             viols.append(cm.viol("%s: shape %s vs %s" % (what, out.shape, want.shape), qty + "_shape"))
             return
-        sc = float(np.abs(want).max()) + 1e-300
+        fl = gfl * rfl * float(np.abs(T).max() ** 2 if "with transform" in what else 1.0) if "momentum_integral" in what else 0.0
+        sc = max(float(np.abs(want).max()), fl) + 1e-300
         e = float(np.abs(out - want).max()) / sc
         errs[qty] = max(errs.get(qty, 0.0), e)
         if not e <= TOL:
